@@ -432,6 +432,8 @@ class HddSplit(Suite):
 
 SUITES["hdd_split"] = HddSplit()
 
-from harness.readers import under_O, under_debug  # noqa: E402
+from harness.readers import under_O, under_debug, under_bufsize  # noqa: E402
 SUITES["hds_pyO"] = under_O(SUITES["hds"])
 SUITES["hds_dbg"] = under_debug(SUITES["hds"])
+SUITES["hds_buf12288"] = under_bufsize(SUITES["hds"], 12288)
+SUITES["hds_buf1536"] = under_bufsize(SUITES["hds"], 1536, n=4)
